@@ -36,7 +36,7 @@ func c23Cfg() *txCfg {
 func TestVerif_C23(t *testing.T) {
 	rec := vh.NewRecorder("C23", "commit_merge", "exploration", c23Rule,
 		"the harness owns the schedule at statement granularity; commits never overlap in time (the CAS retry loop is exercised by the goroutine variant only)",
-		"for rows on which Merge3(head at start, head now, committer's view) itself conflicts the head row after dolt_commit is not asserted (the property does not define it); the observed head is adopted",
+		"known finding C23-conflict-artifact-in-head-commit (open): where Merge3(head at start, head now, committer's view) itself conflicts, dolt_commit succeeds and the head commit carries a conflict artifact; while listed, nothing derived from such a head is asserted (rows of the conflicting keys, nothing-to-commit, branches are not created from it) and the occurrences are counted in excluded_known; the observed head rows are adopted",
 		"up to two branches are created mid-schedule by a separate autocommit session; an open transaction may reference such a branch (result of that statement not asserted), its later reads and its commit are asserted against the unchanged snapshot",
 		"a transaction writes to one branch only; dolt_commit is issued only when the pending writes are on the session's current branch",
 		"SET autocommit=1 is not issued with pending writes; after a dolt_commit inside BEGIN the session's next statement is COMMIT or ROLLBACK",
@@ -54,6 +54,7 @@ func TestVerif_C23(t *testing.T) {
 	defer admin.Close()
 	cfg := c23Cfg()
 	t.Run("pinned_lost_update_after_failed_autocommit_dml", func(t *testing.T) { txPinnedLostUpdate(t, srv, admin) })
+	t.Run("pinned_conflict_artifact_in_head_commit", func(t *testing.T) { txPinnedHeadArtifact(t, srv, admin) })
 	vh.Check(t, "schedule", 260, 400, func(rt *rapid.T) {
 		txRunCase(rt, srv, admin, cfg, rec)
 	})
